@@ -208,6 +208,27 @@ func runPrefixes(c *core.Case) {
 			c.Violation("valid|"+p.name, "value-diff", d, nil)
 			return
 		}
+		// a bare collection decoded into a target with other element types is skipped as a
+		// whole (outside strict mode): every proper prefix must still be an unexpected-EOF error
+		if alt := mismatchingTarget(t); alt != nil {
+			c.Journal("prefixes-skipped|" + p.name)
+			if _, o := decode(p, full, alt, false); o.sig != "" || o.err != nil {
+				c.Violation("prefixes-skipped|"+p.name, "skipped-collection-rejected", fmt.Sprintf("Unmarshal(%s) of a valid %s into %s (elements skipped): panic %q err %v", p.name, t, alt, o.sig, o.err), nil)
+				return
+			}
+			for cut := 1; cut < len(full); cut += step {
+				b := full[:cut:cut]
+				_, o := decode(p, b, alt, false)
+				if !checkTotal(c, "prefixes-skipped", p, b, alt, o) {
+					return
+				}
+				if o.err == nil || !errors.Is(o.err, io.ErrUnexpectedEOF) {
+					c.Violation("prefixes-skipped|"+p.name, "truncated-skipped-collection", fmt.Sprintf("Unmarshal(%s) of the first %d of %d bytes (%x) of a %s into %s reports %v, not an unexpected-EOF error", p.name, cut, len(full), tr(b), t, alt, o.err), map[string]any{"input_hex": fmt.Sprintf("%x", tr(b)), "cut": cut})
+					return
+				}
+				c.Count("prefixes.skipped-decoded", 1)
+			}
+		}
 		extra := append(append([]byte(nil), full...), c.Rng.Bytes(c.Rng.Range(1, 4))...)
 		if _, o := decode(p, extra, t, false); o.sig != "" || o.err == nil {
 			c.Violation("trailing|"+p.name, "trailing-bytes-accepted", fmt.Sprintf("Unmarshal(%s) accepts %x followed by %d more bytes (panic %q)", p.name, tr(full), len(extra)-len(full), o.sig), map[string]any{"type": ttypes.TypeString(t), "input_hex": fmt.Sprintf("%x", tr(extra))})
@@ -215,6 +236,33 @@ func runPrefixes(c *core.Case) {
 		}
 		c.Distinct(core.Mix(core.HashString(t.String()), core.HashBytes(full)), len(full) > 1)
 	}
+}
+
+// mismatchingTarget returns, for a bare list / set / map type, a target of the same collection
+// kind whose elements have another thrift type (nil for anything else).
+func mismatchingTarget(t reflect.Type) reflect.Type {
+	other := func(e reflect.Type) reflect.Type {
+		for e.Kind() == reflect.Pointer {
+			e = e.Elem()
+		}
+		if e.Kind() == reflect.String || (e.Kind() == reflect.Slice && e.Elem().Kind() == reflect.Uint8) {
+			return reflect.TypeOf(int64(0))
+		}
+		return reflect.TypeOf("")
+	}
+	switch t.Kind() {
+	case reflect.Slice:
+		if t.Elem().Kind() == reflect.Uint8 {
+			return nil
+		}
+		return reflect.SliceOf(other(t.Elem()))
+	case reflect.Map:
+		if t.Elem().Size() == 0 { // set
+			return reflect.MapOf(other(t.Key()), t.Elem())
+		}
+		return reflect.MapOf(t.Key(), other(t.Elem()))
+	}
+	return nil
 }
 
 // ---- unknown fields --------------------------------------------------------------------------------
@@ -381,6 +429,98 @@ func runUnknown(c *core.Case) {
 	c.Distinct(core.HashString(tspec.Canon(tree)), cnt > 0)
 }
 
+// retypeNested re-types one field of a struct node that sits below a map value, a list element
+// or a struct field of the root (chosen at random among all of them).
+func retypeNested(r *core.Rand, root tspec.Node, t reflect.Type) (tspec.Node, string, bool) {
+	type site struct {
+		path  []int // indexes: field position / item index / pair index
+		where string
+	}
+	var sites []site
+	var walk func(n tspec.Node, t reflect.Type, path []int, where string, depth int)
+	walk = func(n tspec.Node, t reflect.Type, path []int, where string, depth int) {
+		for t.Kind() == reflect.Pointer {
+			t = t.Elem()
+		}
+		switch n.K {
+		case tspec.STRUCT:
+			if t.Kind() != reflect.Struct {
+				return
+			}
+			if depth > 0 && len(n.Fields) > 0 {
+				sites = append(sites, site{append([]int(nil), path...), where})
+			}
+			fs, _ := ttypes.Fields(t)
+			byID := map[int16]reflect.Type{}
+			for _, f := range fs {
+				byID[f.ID] = f.Type
+			}
+			for i, f := range n.Fields {
+				if ft, ok := byID[f.ID]; ok {
+					walk(f.V, ft, append(path, i), where+"/field", depth+1)
+				}
+			}
+		case tspec.LIST:
+			if t.Kind() == reflect.Slice {
+				for i, it := range n.Items {
+					walk(it, t.Elem(), append(path, i), where+"/list-element", depth+1)
+				}
+			}
+		case tspec.MAP:
+			if t.Kind() == reflect.Map {
+				for i, p := range n.Pairs {
+					walk(p[1], t.Elem(), append(path, i), where+"/map-value", depth+1)
+				}
+			}
+		}
+	}
+	walk(root, t, nil, "", 0)
+	// prefer sites below a map or a list
+	var pref []site
+	for _, s := range sites {
+		if strings.Contains(s.where, "map-value") || strings.Contains(s.where, "list-element") {
+			pref = append(pref, s)
+		}
+	}
+	if len(pref) > 0 {
+		sites = pref
+	}
+	if len(sites) == 0 {
+		return root, "", false
+	}
+	s := sites[r.Intn(len(sites))]
+	var rewrite func(n tspec.Node, path []int) tspec.Node
+	rewrite = func(n tspec.Node, path []int) tspec.Node {
+		out := n
+		if len(path) == 0 {
+			out.Fields = append([]tspec.Field(nil), n.Fields...)
+			i := r.Intn(len(out.Fields))
+			for {
+				other := randNode(r, 2)
+				if other.K != out.Fields[i].V.K && !(other.K == tspec.BOOL && out.Fields[i].V.K == tspec.BOOL) {
+					out.Fields[i].V = other
+					break
+				}
+			}
+			return out
+		}
+		i := path[0]
+		switch n.K {
+		case tspec.STRUCT:
+			out.Fields = append([]tspec.Field(nil), n.Fields...)
+			out.Fields[i].V = rewrite(n.Fields[i].V, path[1:])
+		case tspec.LIST:
+			out.Items = append([]tspec.Node(nil), n.Items...)
+			out.Items[i] = rewrite(n.Items[i], path[1:])
+		case tspec.MAP:
+			out.Pairs = append([][2]tspec.Node(nil), n.Pairs...)
+			out.Pairs[i] = [2]tspec.Node{n.Pairs[i][0], rewrite(n.Pairs[i][1], path[1:])}
+		}
+		return out
+	}
+	return rewrite(root, s.path), "below " + strings.TrimPrefix(s.where, "/"), true
+}
+
 func describe(n tspec.Node) string {
 	switch n.K {
 	case tspec.LIST, tspec.SET:
@@ -401,7 +541,7 @@ func clip(s string, n int) string {
 // ---- required fields and strict type checks ----------------------------------------------------
 
 func runRequired(c *core.Case) {
-	t, ok := genType(c, ttypes.Cfg{MaxDepth: 1, MaxFields: 8})
+	t, ok := genType(c, ttypes.Cfg{MaxDepth: 2, MaxFields: 8})
 	if !ok {
 		return
 	}
@@ -499,6 +639,24 @@ func runRequired(c *core.Case) {
 				}
 			}
 			c.Count("history.steps", len(steps))
+		}
+	}
+	// strict mode below containers: a field of a struct nested in map values, list elements or
+	// other structs is re-typed; the strict flag must reach it
+	if mutN, where, ok := retypeNested(r, tree, t); ok {
+		for _, p := range protocols {
+			b := p.encode(mutN)
+			c.Journal("strict-type-mismatch-nested|" + p.name)
+			_, o := decode(p, b, t, true)
+			if !checkTotal(c, "strict-type-mismatch-nested", p, b, t, o) {
+				return
+			}
+			var tm *thrift.TypeMismatch
+			if !errors.As(o.err, &tm) {
+				c.Violation("strict-type-mismatch-nested|"+p.name, "not-reported", fmt.Sprintf("a field of a struct nested %s holds another thrift type than declared; a strict Decoder(%s) reports %v (input %x)", where, p.name, o.err, tr(b)), map[string]any{"type": ttypes.TypeString(t), "input_hex": fmt.Sprintf("%x", tr(b)), "where": where})
+				return
+			}
+			c.Count("strict-type-mismatch.nested-reported", 1)
 		}
 	}
 	// strict mode: one field with another wire type
@@ -840,7 +998,7 @@ func runReaders(c *core.Case) {
 func init() {
 	core.Register(&core.Monitor{
 		Prop:    "C08",
-		Rule:    "prefixes (struct targets, and every third case a bare list/set/map/string/number/pointer target): every prefix (all of them up to 400 bytes, 200 evenly spaced beyond) of a specification-conformant encoding of a generated value, both protocols: no panic, an error, io.EOF only for the empty input and an error that Is io.ErrUnexpectedEOF otherwise; the whole encoding decodes to the value; with 1-4 bytes appended Unmarshal reports an error. unknown-fields: fields with undeclared ids (negative, below/above/between the declared ones, at 63/64/65/127/128/129/32767) holding values of every thrift type incl. nested lists, sets, maps and structs are inserted into every struct level of the encoding: the decoded value is unchanged (strict and non-strict). required: the encoding with one required field removed yields *MissingField naming that field; an 8-step history of failing and succeeding decodes of one type gives each step the outcome it has in isolation; one field re-typed (another kind, or the same collection kind with other element types) yields *TypeMismatch from a strict Decoder; a non-strict one returns no error, leaves that field zero and decodes every other field as before. mutated / random: bit flips, byte substitutions, deletions, huge big-endian and varint sizes spliced into valid encodings, and random bytes biased to header values: no panic; bytes allocated (runtime.MemStats.TotalAlloc around the second and later calls for a type) within 1 MiB (64 KiB of preallocation per nesting level of the decoder, with map overhead) + 4 x len(input) x (largest element size of the target type incl. one bit per id of a struct's id range + 64). size-bombs: list, set, map, string and binary headers announcing 2^16 .. 2^32-1 elements followed by 0-23 bytes, or by slightly more real elements than the decoder preallocates: rejected within the same allocation budget. readers: every Reader method of both protocols on short arbitrary inputs: no panic, <= 256 KiB allocated, no negative sizes, fixed-width reads fail on short input.",
+		Rule:    "prefixes (struct targets, and every third case a bare list/set/map/string/number/pointer target): every prefix (all of them up to 400 bytes, 200 evenly spaced beyond) of a specification-conformant encoding of a generated value, both protocols: no panic, an error, io.EOF only for the empty input and an error that Is io.ErrUnexpectedEOF otherwise; the whole encoding decodes to the value; with 1-4 bytes appended Unmarshal reports an error; a bare list/set/map is also decoded into a target with other element types (the elements are skipped): accepted in full, unexpected-EOF for every prefix. unknown-fields: fields with undeclared ids (negative, below/above/between the declared ones, at 63/64/65/127/128/129/32767) holding values of every thrift type incl. nested lists, sets, maps and structs are inserted into every struct level of the encoding: the decoded value is unchanged (strict and non-strict). required: the encoding with one required field removed yields *MissingField naming that field; an 8-step history of failing and succeeding decodes of one type gives each step the outcome it has in isolation; one field re-typed (another kind, or the same collection kind with other element types) yields *TypeMismatch from a strict Decoder, also when the field belongs to a struct nested in map values, list elements or other structs; a non-strict one returns no error, leaves that field zero and decodes every other field as before. mutated / random: bit flips, byte substitutions, deletions, huge big-endian and varint sizes spliced into valid encodings, and random bytes biased to header values: no panic; bytes allocated (runtime.MemStats.TotalAlloc around the second and later calls for a type) within 1 MiB (64 KiB of preallocation per nesting level of the decoder, with map overhead) + 4 x len(input) x (largest element size of the target type incl. one bit per id of a struct's id range + 64). size-bombs: list, set, map, string and binary headers announcing 2^16 .. 2^32-1 elements followed by 0-23 bytes, or by slightly more real elements than the decoder preallocates: rejected within the same allocation budget. readers: every Reader method of both protocols on short arbitrary inputs: no panic, <= 256 KiB allocated, no negative sizes, fixed-width reads fail on short input.",
 		Trusted: []string{"harness/gen/tspec encoders for the valid encodings", "runtime.MemStats.TotalAlloc as the allocation meter (single goroutine)", "errors.Is(err, io.ErrUnexpectedEOF) as the 'unexpected-EOF class'"},
 		Subs: []core.Sub{
 			{Name: "prefixes", N: core.Const(1500, 60000), Run: runPrefixes},
